@@ -213,6 +213,61 @@ func ruleCtx(c *Ctx) {
 		c.check(sel && errCall, "now:select", ccn.Pos(), "checkContextNow polls the done channel without blocking and returns ctx.Err()", "checkContextNow does not poll ctxDone / return ctx.Err()")
 	}
 
+	// (2b) the context is looked at only under the flag: Execute clears checkCtx but leaves ctx/ctxDone of an earlier
+	// ExecuteContext in place, so a poll that is not guarded by the flag consults a stale (possibly cancelled)
+	// context. Every call of the polling function is dominated by the true edge of a checkCtx test - in its own
+	// function or at every call site of that function
+	if nowFn != nil {
+		var flagGuarded func(fn *ssa.Function, in ssa.Instruction, depth int) bool
+		flagGuarded = func(fn *ssa.Function, in ssa.Instruction, depth int) bool {
+			for _, d := range fn.Blocks {
+				if len(d.Instrs) == 0 || d == in.Block() || !d.Dominates(in.Block()) {
+					continue
+				}
+				if iff, ok := d.Instrs[len(d.Instrs)-1].(*ssa.If); ok {
+					if name, pos := condField(iff.Cond); name == "checkCtx" {
+						idx := 0
+						if !pos {
+							idx = 1
+						}
+						if !reachableAvoiding(d.Succs[1-idx], d)[in.Block()] {
+							return true
+						}
+					}
+				}
+			}
+			if depth >= 3 {
+				return false
+			}
+			sites, good := 0, 0
+			for _, g := range c.srcFuncs("interp") {
+				g := g
+				allInstrs(g, func(i2 ssa.Instruction) {
+					if call, ok := i2.(ssa.CallInstruction); ok && call.Common().StaticCallee() == fn {
+						sites++
+						if flagGuarded(g, i2, depth+1) {
+							good++
+						}
+					}
+				})
+			}
+			return sites > 0 && sites == good
+		}
+		nPoll := 0
+		for _, fn := range c.srcFuncs("interp") {
+			fn := fn
+			allInstrs(fn, func(in ssa.Instruction) {
+				call, ok := in.(ssa.CallInstruction)
+				if !ok || call.Common().StaticCallee() != nowFn {
+					return
+				}
+				nPoll++
+				c.check(flagGuarded(fn, in, 0), "now:under-flag:"+fnKey(fn), posOr(in.Pos(), fn.Pos()), "the context is polled only where the checkCtx flag is known to be set", fnKey(fn)+" polls the context without the checkCtx flag being known to be set: after an ExecuteContext whose context was cancelled, a plain Execute on the same Interpreter consults the stale context and returns its error")
+			})
+		}
+		c.atLeast("calls of the context-polling function", nPoll, 2)
+	}
+
 	// (3) executeAll: error returns after execute/execActions prefer the context error; closeAll deferred
 	ea := c.ssaFunc("interp", "interp.executeAll")
 	if ea == nil {
